@@ -65,29 +65,31 @@ pub fn build_data(c: &GraphCase) -> (CscMatrix<f64>, Vec<f64>, Vec<SupportedCone
         }
     }
     let mut b = vec![0.0; m];
-    let mut rows = vec![];
+    let mut rows: Vec<(usize, f64)> = vec![];
     for (k, &on) in mask.iter().enumerate() {
         if on {
-            match mix(c.split as u64 * 7919 + k as u64) % 3 {
-                0 => rows.push(c.pre + k),
+            match mix(c.split as u64 * 7919 + k as u64) % 4 {
+                0 => rows.push((c.pre + k, 1.0)),
                 1 => b[c.pre + k] = 1.0,
-                _ => {
-                    rows.push(c.pre + k);
+                2 => {
+                    rows.push((c.pre + k, -3.0));
                     b[c.pre + k] = -2.0;
                 }
+                // a stored entry whose value happens to be zero is still part of the structure
+                _ => rows.push((c.pre + k, 0.0)),
             }
         }
     }
     for i in 0..c.pre {
         if i % 2 == 0 {
-            rows.push(i);
+            rows.push((i, 1.0));
         } else {
             b[i] = 1.0;
         }
     }
-    rows.sort();
+    rows.sort_by_key(|r| r.0);
     let nnz = rows.len();
-    let a = CscMatrix::new(m, 1, vec![0, nnz], rows, vec![1.0; nnz]);
+    let a = CscMatrix::new(m, 1, vec![0, nnz], rows.iter().map(|r| r.0).collect(), rows.iter().map(|r| r.1).collect());
     let mut cones = vec![];
     if c.pre > 0 {
         cones.push(SupportedConeT::NonnegativeConeT(c.pre));
